@@ -93,7 +93,12 @@ class Number(Parseable[int]):
         atom = match.group(0)
         if not cls._num_pattern.match(atom):
             raise NotParseable(buf)
-        return cls(int(match.group(0))), buf[match.end(0):]
+        try:
+            num = int(atom)
+        except ValueError as exc:
+            # more digits than the interpreter converts
+            raise NotParseable(buf) from exc
+        return cls(num), buf[match.end(0):]
 
     def __bytes__(self) -> bytes:
         return self._raw
@@ -370,7 +375,10 @@ class LiteralString(String):
         if not match:
             raise NotParseable(buf)
         binary = match.group(1) == b'~'
-        literal_length = int(match.group(2))
+        try:
+            literal_length = int(match.group(2))
+        except ValueError as exc:
+            raise NotParseable(buf, b'TOOBIG') from exc
         if cls._check_too_big(params, literal_length):
             raise NotParseable(buf, b'TOOBIG')
         elif match.group(3) == b'+':
